@@ -141,10 +141,11 @@ def run(ctx):
                  ("C04-R7", "parallel arrays of a storage are reset together"),
                  ("C04-R8", "get / get_mut / shared_get_mut of a storage locate the slot the same way")]:
         ctx.rule(r, t)
-    ctx.exception("<storage::Storage<'e, T, D>::not_present_insert::RemoveOnDrop<'a, T> as std::ops::Drop>::drop", "R1: undoes an insert whose mask update unwound")
+    ctx.exception("Drop impls of rollback guards (types every construction of which is mem::forget-ed on all normal paths; today: RemoveOnDrop in not_present_insert)",
+                  "R1: the destructor only runs while unwinding between the raw insert and the forget; it undoes an insert whose mask update unwound")
     ctx.exception("<changeset::ChangeSet<T> as join::Join>::get / LendJoin::get", "R1: consuming join, the mask is owned by the iterator (C16)")
     for cfg in configs(ctx.tier):
-        facts = ctx.facts(cfg)
+        facts = ctx.xfacts(cfg)
         MP[id(facts)] = MaskPredicates(facts)
         ctx.note("[%s] mask-test wrappers: %s" % (cfg, sorted(MP[id(facts)].members)))
         r1(ctx, facts)
@@ -161,6 +162,8 @@ def run(ctx):
 
 def r1(ctx, facts):
     nins = ndel = 0
+    from ..summaries import forgotten_guards
+    guards = forgotten_guards(facts)
     for b in facts.bodies:
         if in_storage_impl(b):
             continue
@@ -176,7 +179,7 @@ def r1(ctx, facts):
                 ctx.ob("C04-R1", "%s raw insert -> mask.add" % b.path, ok, b.loc(bb),
                        "" if ok else "a value is put into the raw storage without its mask bit being set on path %s" % b.fmt_path(wit))
             elif p in RAW_DEL:
-                if b.trait_item == "std::ops::Drop::drop" and "RemoveOnDrop" in b.path:
+                if b.trait_item == "std::ops::Drop::drop" and base_ty(b.self_ty or "") in guards:
                     ctx.ob("C04-R1", "%s raw remove (named exception)" % b.path, True, b.loc(bb), nontrivial=False)
                     continue
                 if b.trait_item and b.trait_item.split("::")[-1] == "get" and base_ty(b.self_ty or "") == "changeset::ChangeSet":
